@@ -19,6 +19,7 @@ INPUTS = [a + p for a in ANTS for p in 'hv']
 TIME, FREQ, CORR = base.TIME, base.FREQ, base.CORR
 NAMES_KEYS = ('scans', 'compscans', 'target_tags', 'ants', 'inputs', 'pol')
 KNOWN_NOT_ATOMIC = 'failed_call;symptom=not_atomic'
+XWIRE = 23      # Model/SelectA.v: the decorated (all-or-nothing) method; wire_21 is the bare body
 
 
 # ---------------------------------------------------------------------------------------------------------------
@@ -672,9 +673,7 @@ def run_xhistory(ctx, ob, history, mout, hid, note=True):
     prev = observe(ob, d)
     if not compare_state(ctx, ob, [], case0, prev, model_state(ob, minit), 'constructor'):
         return
-    # clean: the data set is in a state produced by accepted calls (and documented rejections) only.  After a call
-    # that raised part-way the spec only constrains the dimensions a later call starts afresh (theorem
-    # C02_recovery); any accepted call makes the state clean again.
+    # every call is all-or-nothing (decorated select): the spec is compared after EVERY call of the history
     clean = True
     for n, call in enumerate(history):
         mo, so = mouts[n]
@@ -704,6 +703,20 @@ def run_xhistory(ctx, ob, history, mout, hid, note=True):
                          'implementation and spec disagree on whether / how the call is rejected', spec=so[0])
             return
         cur = observe(ob, d)
+        if icode == 2:
+            # raised part-way: the call must leave the data set exactly as it was (theorem C02_failed_call_atomic; this is
+            # checked against the observation BEFORE the call, so it does not depend on the model)
+            changed = cur != prev
+            stale = cur['nts'] != cur['shape'][0] or cur['shape'] != [sum(cur['tk']), sum(cur['fk']), sum(cur['bk'])]
+            ctx.count('x:failed_call_%s' % ('changed_state' if changed else 'left_state'))
+            if changed:
+                ctx.disagree(KNOWN_NOT_ATOMIC, case, dict(shape=cur['shape'], timestamps=cur['nts'], keys=cur['keys'],
+                                                          masks=[cur['tk'], cur['fk'], cur['bk']]),
+                             dict(shape=prev['shape'], timestamps=prev['nts'], keys=prev['keys'],
+                                  masks=[prev['tk'], prev['fk'], prev['bk']]),
+                             'a select() call that raised left the data set changed%s'
+                             % (' and inconsistent (shape vs timestamps / masks)' if stale else ''))
+                return
         mst = model_state(ob, mo[1:])
         if not compare_state(ctx, ob, call, case, cur, mst, 'after_' + ['ok', 'typeerror', 'raise', 'indexerror'][icode]):
             return
@@ -716,39 +729,11 @@ def run_xhistory(ctx, ob, history, mout, hid, note=True):
                 ctx.note_case((hkey, n), nontrivial=True)
             continue
         if icode == 2:
-            # raised somewhere else: atomicity is the open finding; the state itself is tied to the model above
-            changed = cur != prev
-            stale = cur['nts'] != cur['shape'][0] or cur['shape'] != [sum(cur['tk']), sum(cur['fk']), sum(cur['bk'])]
-            ctx.count('x:failed_call_%s' % ('changed_state' if changed else 'left_state'))
-            if changed:
-                ctx.disagree(KNOWN_NOT_ATOMIC, case, dict(shape=cur['shape'], timestamps=cur['nts'], keys=cur['keys'],
-                                                          masks=[cur['tk'], cur['fk'], cur['bk']]),
-                             dict(shape=prev['shape'], timestamps=prev['nts'], keys=prev['keys'],
-                                  masks=[prev['tk'], prev['fk'], prev['bk']]),
-                             'a select() call that raised left the data set changed%s'
-                             % (' and inconsistent (shape vs timestamps / masks)' if stale else ''))
-            if note:
-                ctx.note_case((hkey, n), nontrivial=changed)
-            prev = cur
-            # not clean even when nothing observable changed: the VALUE of a retained keyword may have been replaced
-            # by the offending one (e.g. pol=[] -> pol=['h', 3]), which poisons later calls
-            clean = False
-            continue
-        if not clean:
-            # accepted call on a half-updated data set: the dimensions it starts afresh must be as documented
-            ctx.count('x:accepted_after_failed_call')
-            fresh = so[7]
-            badd = [nm for nm, r, a, b in (('T', fresh[0], cur['tk'], so[1]), ('F', fresh[1], cur['fk'], so[2]),
-                                           ('B', fresh[2], cur['bk'], so[3])) if r and so[0] == 0 and a != b]
-            if badd:
-                ctx.disagree(xsignature(call, 'after_failed_call:reset_dimension_differs_from_spec:' + ''.join(badd)), case,
-                             [cur['tk'], cur['fk'], cur['bk']], so[1:4],
-                             'a dimension started afresh by an accepted call after a failed one is not as documented', spec=so[1:6])
-                return
             if note:
                 ctx.note_case((hkey, n), nontrivial=True)
-            prev = cur
-            clean = True
+            # the history goes on: the next calls are compared with the documented rule as if nothing had happened
+            # (C02_atomic_failed_call_invisible); a retained offender would show there (VALUES of retained keywords
+            # are not observable directly)
             continue
         # accepted: property = public attributes vs the spec's masks
         sp = dict(tk=so[1], fk=so[2], bk=so[3], spw=so[4], sub=so[5])
@@ -798,6 +783,13 @@ def xrandom_histories(oseed, per_obs, small=False):
         h = []
         # one history in four is a malformed stream: every criterion has a 30% chance of being one that raises
         mal = 0.3 if orng.random() < 0.25 else 0.0
+        # one history in five on a multi-window / multi-subarray observation starts with a SWITCHING pair: a criterion on
+        # the dimension a switch does not clear by itself (products for spw=, channels for subarray=), then a call that
+        # switches AND names another criterion of that same dimension, default reset (replace, not stack)
+        if (ob.nspw() > 1 or ob.nsub() > 1) and orng.random() < 0.2:
+            for c in gen_switch_pair(orng, ob, cur):
+                h.append(c)
+                cur = track(cur, c, ob)
         for _ in range(orng.randint(1, 9)):
             c = gen_xcall(orng, ob, cur, mal)
             h.append(c)
@@ -806,9 +798,36 @@ def xrandom_histories(oseed, per_obs, small=False):
     return ob, histories
 
 
+def gen_switch_pair(rng, ob, cur):
+    which = rng.choice([k for k, n in (('spw', ob.nspw()), ('subarray', ob.nsub())) if n > 1])
+    third = CORR if which == 'spw' else FREQ
+    spw, sub = cur
+    k1 = rng.choice(third)
+    first = [(k1,) + tuple(gen_xcriterion(rng, ob, k1, spw, sub))]
+    if rng.random() < 0.3:
+        k0 = rng.choice(TIME)
+        first.append((k0,) + tuple(gen_xcriterion(rng, ob, k0, spw, sub)))
+    n = ob.nspw() if which == 'spw' else ob.nsub()
+    z = rng.choice([x for x in range(n) if x != cur[0 if which == 'spw' else 1]])
+    if which == 'spw':
+        spw = z
+    else:
+        sub = z
+    second = [(which, z, xcore([11, z]), 'int-switch')]
+    for k in rng.sample(third, rng.choice([1, 1, 2])):
+        second.append((k,) + tuple(gen_xcriterion(rng, ob, k, spw, sub)))
+    if rng.random() < 0.25:
+        k0 = rng.choice(TIME)
+        second.append((k0,) + tuple(gen_xcriterion(rng, ob, k0, spw, sub)))
+    rng.shuffle(second)
+    if rng.random() < 0.15:
+        second.append(('reset', 'auto', xcore([10, codes('auto')]), 'reset'))
+    return [first, second]
+
+
 def model_xhistories(ctx, ob, histories):
     w = ob.wire()
-    cases = [[21, [w, [wire_call(c) for c in h]]] for h in histories]
+    cases = [[XWIRE, [w, [wire_call(c) for c in h]]] for h in histories]
     return ctx.model(cases), cases
 
 
